@@ -30,6 +30,16 @@ class Check(PropertyCheck):
         a = declib.bzcraft.random_plain(rng, 300)
         b = declib.bzcraft.random_plain(rng, 300)
         files.append((bz2.compress(a, 1) + bz2.compress(b, 9) + bz2.compress(b"", 5), a + b, "libbz2-concat"))
+        # concatenated streams of different levels where a LATER stream has the bigger blocks
+        for _ in range(2 if quick else 10):
+            l1 = rng.range(1, 4)
+            l2 = rng.range(l1 + 1, 9)
+            b1 = declib.bzcraft.valid_block(rng, 60)
+            b2 = declib.bzcraft.Block()
+            b2.const_run = (rng.below(256), 100000 * l1 + rng.choice([1, 5000, 100000 * (l2 - l1)]))
+            bits = declib.bzcraft.stream([b1], l1, rng) + declib.bzcraft.stream([b2], l2, rng)
+            f = declib.bzcraft.to_bytes(bits)
+            files.append((f, declib.libbz2_decode(f), "levels-up"))
         # 20-bit codes: skewed table over >= 21 symbols
         for _ in range(6 if quick else 60):
             plain = bytes(rng.shuffle(list(range(40))) * 3)
